@@ -366,21 +366,21 @@ func (r *RdbReader) ReadZipmapItem(buf *util.SliceBuffer, readFree bool) []byte 
 }
 
 func readZipmapItemLength(buf *util.SliceBuffer, readFree bool) (int, int) {
+	// zipmap.c : a byte up to 253 is the length itself, 254 (ZIPMAP_BIGLEN) announces a 4 bytes
+	// little endian length, 255 (ZIPMAP_END) ends the map
 	b := buf.ReadByte()
-	switch b {
-	case 253:
-		s := buf.Slice(5)
-		return int(binary.BigEndian.Uint32(s)), int(s[4])
-	case 254:
-		panic(errors.Errorf("rdb: invalid zipmap item length"))
-	case 255:
+	if b == 255 {
 		return -1, 0
+	}
+	length := int(b)
+	if b == 254 {
+		length = int(binary.LittleEndian.Uint32(buf.Slice(4)))
 	}
 	var free byte
 	if readFree {
 		free = buf.ReadByte()
 	}
-	return int(b), int(free)
+	return length, int(free)
 }
 
 func (r *RdbReader) CountZipmapItemsP(buf *util.SliceBuffer) int {
@@ -398,8 +398,9 @@ func (r *RdbReader) CountZipmapItems(buf *util.SliceBuffer) int {
 		buf.Seek(int64(strLen)+int64(free), 1)
 		n++
 	}
-	buf.Seek(0, 0)
-	return n
+	// back behind the <zmlen> byte, where the caller is ; a field and its value are one item
+	buf.Seek(1, 0)
+	return n / 2
 }
 
 func moduleTypeNameByID(moduleId uint64) string {
